@@ -180,9 +180,10 @@ impl LProto for LUnchecked {
 /// Concatenation of all nodes of a LinkedBytes followed by its current buffer.
 pub fn concat<const N: usize>(lb: &LinkedBytes) -> crate::ref_thrift::Out<N> {
     let mut o = crate::ref_thrift::Out::<N>::new();
+    // memcpy per node (no byte loop: the harness-wide unwind bound stays small)
     for node in lb.iter_list() {
-        o.put_all(node.as_ref());
+        o.put_sym(node.as_ref());
     }
-    o.put_all(lb.bytes().as_ref());
+    o.put_sym(lb.bytes().as_ref());
     o
 }
